@@ -298,11 +298,16 @@ type fakeIDP struct {
 	next idpAnswer
 	recs []idpRecord
 	gate func(what string) // optional: called when a request arrives (controlled scheduling)
+	disc     map[string]discAnswer // discovery documents by path
+	discGets map[string]int
 }
 
 func newFakeIDP() *fakeIDP {
 	f := &fakeIDP{}
 	f.srv = httptest.NewServer(http.HandlerFunc(func(w http.ResponseWriter, r *http.Request) {
+		if f.serveDiscovery(w, r) {
+			return
+		}
 		_ = r.ParseForm()
 		f.mu.Lock()
 		rec := idpRecord{Method: r.Method, Path: r.URL.RequestURI(), ContentType: r.Header.Get("Content-Type"),
